@@ -60,6 +60,14 @@ def run_case(case, ctx):
     n = int(rng.randint(40, 260))
     d = int(rng.randint(1, 4))
     X = rng.randn(n, d)
+    xdtype = ["float64", "float64", "float64", "int64", "float32"][rng.randint(5)]
+    if xdtype == "int64":
+        # count-like features, made unique so that a row still identifies its training index
+        X = (numpy.round(X * 4) * 100 + numpy.arange(n)[:, None] % 97 + numpy.arange(n)[:, None] // 97).astype(
+            numpy.int64)
+        X[:, 0] = numpy.round(rng.randn(n) * 4).astype(numpy.int64) * 1000 + numpy.arange(n)
+    elif xdtype == "float32":
+        X = X.astype(numpy.float32)
     bk = ["tree", "tree", "kbins", "bins"][rng.randint(4)]
     if bk == "tree":
         depth = int(rng.randint(1, 7))
@@ -93,8 +101,10 @@ def run_case(case, ctx):
     frame = rng.rand() < 0.15
     rs = int(rng.randint(0, 100))
     cfg = {"kind": "classifier" if clf else "regressor", "binner": bdesc, "local": base, "weights": wkind,
+           "x_dtype": xdtype,
            "labels": lab if clf else None, "frame": bool(frame), "n": n, "d": d, "random_state": rs, "sub": sub}
     ctx.cls("binner=" + bk)
+    ctx.cls("x_dtype=" + xdtype)
     ctx.cls("classifier" if clf else "regressor")
     K = "C08/%s/" % ("classifier" if clf else "regressor")
     Xin = pandas.DataFrame(X, columns=["f%d" % i for i in range(d)]) if frame else X
@@ -111,8 +121,9 @@ def run_case(case, ctx):
         return m.fit(Xin, y) if w is None else m.fit(Xin, y, sample_weight=w)
 
     # query batch: training rows, perturbed rows, far rows (unseen cells for discretisers)
-    Q = numpy.vstack([X[: min(n, 25)], X[rng.randint(n, size=25)] + rng.randn(25, d) * 0.3,
-                      rng.uniform(-4, 4, size=(40, d))])
+    spread = float(numpy.abs(X).max())
+    Q = numpy.vstack([X[: min(n, 25)], X[rng.randint(n, size=25)] + rng.randn(25, d) * 0.3 * max(1.0, spread / 4),
+                      rng.uniform(-spread, spread, size=(40, d))]).astype(X.dtype)
     methods = ["predict"] + (["predict_proba"] + (["decision_function"] if base == "logistic" else []) if clf else [])
 
     def outputs(m):
